@@ -76,6 +76,10 @@ CHECKS["C14"] = dict(engine="X", technique="CrossHair (z3) as exhaustive case sp
                      text="REDUCED CLAIM, solver-driven case analysis. The real ModuleFinder and GriffeLoader run on an in-memory file system (os.walk / pathlib predicates stubbed). Every subset of <= 2 (thorough 3) files of a 20-entry vocabulary (plus interacting triples/quadruples) x 7 layouts over two search paths (regular, native and pkgutil-style namespace in one/two portions, package twice, module-before-package, package-before-module); the solver chooses the permutation in which every directory lists its entries, the portion each file lives in and whether the package is requested by name or by directory path. Asserted: tree independent of the enumeration order and of the request form; every loaded module importable by CPython from that file (or a stub); every module pkgutil.walk_packages finds is loaded; package/sub-package/namespace classification. .pth files, editable installs and the real OS listing are outside the claim.",
                      note="Trusted: CrossHair/z3 as case splitter (inputs are realised before the loader runs natively); the in-memory file system (validated against real directories under the same injected order on every grid point and counterexample); the FileFinder/pkgutil reference (validated against importlib.util.find_spec and pkgutil.walk_packages in a subprocess). Known genuine defects excluded by narrow regions: same module name provided by several runtime files; namespace portion shadowed by a regular sub-package.")
 
+CHECKS["C17"] = dict(engine="X", technique="CrossHair (z3) as exhaustive case splitter over a bounded structural model of a package; each case is written to disk and loaded by the real static agent and by the real inspecting agent (CPython imports it); skeletons compared, CPython's inspect.signature as second oracle", design="§4 C17",
+                     text="REDUCED CLAIM, solver-driven case analysis (nothing symbolic survives the import boundary). Bounded structural model: package with two modules; a function whose signature shape is solver-chosen (positional-only, positional-or-keyword, defaults, keyword-only with every default mask, *args, **kwargs: 96 shapes, thorough 300+), a class with attribute, __init__ setting an instance attribute, a method of 7 kinds (plain, static, class, property, cached_property, async, functools.cache), optional nested class; a second module importing them in 5 forms and subclassing (none / one / imported / two bases); 16 docstring presence patterns. Both agents' skeletons must agree on member names, kinds, parameters (names, kinds, required-ness, also against inspect.signature), canonical base paths, docstrings of modules/classes/functions, and aliases with the same final targets. Arbitrary executable modules (the property's quantifier) are NOT covered.",
+                     note="Trusted: CrossHair/z3 as case splitter; the comparison ignores exactly the differences the statement lists (line numbers, interpreter dunders, instance attributes, attribute docstrings/values, origin of imported plain values, labels). The package is really imported by the dynamic agent (in a scratch directory; sys.modules entries removed afterwards).")
+
 NOT_APPLICABLE = [
     {"property_id": "C17", "reason": "static-vs-dynamic agreement needs importlib/inspect on live objects of concrete executable modules: nothing symbolic survives the import boundary, so a solver could only enumerate program texts (enumeration, not solving). See DESIGN.md §5."},
 ]
